@@ -134,3 +134,32 @@ wrap_masked(None)
 @method('Arr', 'tolist')
 def _tolist(L, a):
     raise Unsupported('tolist of symbolic array')
+
+
+@model('numpy.argmax')
+def _argmax(L, a, axis=None):
+    """first index of the maximum (for a boolean array: the first True, 0 if there is none)"""
+    a = L.as_arr(a)
+    if a.ndim != 1:
+        raise Unsupported('argmax rank')
+    ctx = L.ctx
+    n = to_z3(a.shape[0])
+    if simp(n == 0) is True or ctx.branch(n == 0):
+        raise PyRaise(builtin_exc('ValueError'), 'attempt to get argmax of an empty sequence')
+    k = ctx.fresh_int('argmax')
+    j = z3.Int('j!am')
+    ctx.fact(z3.And(0 <= k, k < n))
+    if a.dtype == 'bool':
+        ak = to_z3(a.f((k,)))
+        aj = to_z3(a.f((j,)))
+        ctx.fact(z3.ForAll([j], z3.Implies(z3.And(0 <= j, j < k), z3.Not(aj))))
+        ctx.fact(z3.Implies(z3.Not(ak), z3.And(k == 0, z3.ForAll([j], z3.Implies(z3.And(0 <= j, j < n), z3.Not(aj))))))
+    else:
+        ak = to_real(a.f((k,)))
+        aj = to_real(a.f((j,)))
+        ctx.fact(z3.ForAll([j], z3.Implies(z3.And(0 <= j, j < n), aj <= ak)))
+        ctx.fact(z3.ForAll([j], z3.Implies(z3.And(0 <= j, j < k), aj < ak)))
+    return k
+
+
+METHODS[('Arr', 'argmax')] = lambda L, a, axis=None: _argmax(L, a, axis)
